@@ -7,9 +7,13 @@
 //!       lines and a final `SUMMARY <json>` line.
 //!   verif-harness worker          (internal) executes records, one result line each
 //!   verif-harness trace <kind> .. writes ndjson traces of real executions
+#![allow(dead_code)]
+mod ast;
 mod c18;
 mod pool;
+mod render;
 mod util;
+mod val;
 
 use serde_json::Value as J;
 
@@ -31,6 +35,10 @@ impl Outcome {
 }
 
 pub fn dispatch(rec: &J) -> Outcome {
+    let kind = rec.get("kind").and_then(|p| p.as_str()).unwrap_or("");
+    if kind == "render" {
+        return render::run(rec);
+    }
     match rec.get("p").and_then(|p| p.as_str()).unwrap_or("") {
         "C18" => c18::run(rec),
         other => Outcome::fail(false, serde_json::json!({"why": "harness: unknown record", "p": other})),
